@@ -678,13 +678,14 @@ impl ast::SetComprehension {
 
 impl ast::Capture {
     fn evaluate_lazy(&self, exec: &mut ExecutionContext) -> Result<LazyValue, ExecutionError> {
-        Ok(Value::from_nodes(
-            exec.graph,
-            exec.mat
-                .nodes_for_capture_index(self.file_capture_index as u32),
-            self.quantifier,
-        )
-        .into())
+        let mut nodes = exec
+            .mat
+            .nodes_for_capture_index(self.file_capture_index as u32)
+            .peekable();
+        if matches!(self.quantifier, tree_sitter::CaptureQuantifier::One) && nodes.peek().is_none() {
+            return Err(ExecutionError::UndefinedCapture(format!("{}", self)));
+        }
+        Ok(Value::from_nodes(exec.graph, nodes, self.quantifier).into())
     }
 }
 
